@@ -368,7 +368,7 @@ pub fn one_source(rep: &mut Report, specs: &mut Vec<SpecReq>, label: &str, src: 
 ///  * `cast`: a Data constant at a boundary value cast back with `expect` (what `cast_data_reducer`
 ///    folds), the constant chosen by a parameter so that both branches survive;
 ///  * `once`: a value used exactly once under a delayed branch / lambda (what the inliner moves).
-fn templates() -> Vec<(String, String, Vec<Vec<PlutusData>>)> {
+pub fn templates() -> Vec<(String, String, Vec<Vec<PlutusData>>)> {
     use pallas_primitives::alonzo::{BigInt as PBigInt, PlutusData as PD};
     fn int(n: i128) -> PD {
         PD::BigInt(PBigInt::Int((n as i64).into()))
